@@ -138,8 +138,9 @@ def run_case(case):
                     V.append({"kind": "first-hour simulation differs from really making the change", "n_slots": len(d),
                               "slots": observe.explain_diff(snap_sim, snap_real, d), **ctx})
                 nontrivial = nontrivial and bool(observe.diff(snap0, snap_sim, rtol=0))
-    elif dk == "interior_all_active" and not any(c["value"][0] == "h" for c in changes):
-        # (a change list that itself supplies a new hourly series brings its own hours: not covered by the window claim)
+    elif dk == "interior_all_active" and not any(c["value"][0] == "h" or c["attr"] in ("country", "timezone") for c in changes):
+        # (a change list that itself supplies a new hourly series, or moves a pattern to another time zone - which re-times its
+        # local hours -, brings its own hours: not covered by the window claim)
         C["interior_window_checks"] += 1
         import pandas as pd
         dts = pd.Timestamp(date)
